@@ -81,7 +81,7 @@ CLAIMS = {
    text="Proved about the reference assembler (the documented encoding, shared with the disassembler model): the encoding of a program is the in-order concatenation of its instructions' encodings; decoding the encoding of well-formed instructions returns the same instructions (the bytecode determines the program, nothing dropped / duplicated / reordered); "
         "PUSH selects PUSH0 iff 1 byte, PUSH1 iff 2-255, PUSH2 iff 256-65535 and rejects the empty value and >= 65536 bytes, and what it emits decodes as that push of exactly the value; table obligations (decide +kernel over tables regenerated from /repo's get_args / parse_next on this run): every op's compiler operand class equals the model's layout, every alias resolves. "
         "Tie: abstract programs over the full instruction set (nesting <= 4, operand boundaries per kind) rendered in random combinations of all spelling variants (OP_/bare/every alias, case, brace vs END_, hoisted IF conditions, d/x/s prefixes, three comment styles, whitespace), variable sugar, multi-invocation macros, comptime ~ and ~! blocks must compile to the documented encoding, which the Lean decoder reads back as the same abstract program; unencodable sources must be rejected; all 256 values of every 1-byte operand exhaustively.",
-   note="STATED LIMIT: the tokenizer / parser is not modelled in Lean - no theorem quantifies over source texts; that half is differential testing against a proved-consistent reference. Known tokenizer quirks (whitespace collapse inside s\"...\", upper-casing of unquoted s-values, OP_<alias> rejected directly inside DEF bodies) are avoided by the renderer and noted in DESIGN.md.",
+   note="STATED LIMIT: the tokenizer / parser is not modelled in Lean - no theorem quantifies over source texts; that half is differential testing against a proved-consistent reference. String values are checked against the UTF-8 bytes written between the quotes; the tokenizer's alteration of them (whitespace runs collapse, upper-case S prefix / unquoted values are upper-cased) is known finding K8, probed on every run. `OP_<alias>` spellings directly inside DEF bodies are rejected by the compiler (an error, not a mis-assembly) and are not rendered.",
    technique="Lean 4 proof (encode/decode inverse over 12 operand layouts, decide +kernel table obligations) + differential testing of the concrete-syntax front end",
    design="§5 C11"),
  'C12': dict(
